@@ -351,8 +351,11 @@ End Frozen.
 (* ------------------------------------------------------------------ *)
 (* File keys                                                           *)
 (* ------------------------------------------------------------------ *)
+(* a directory or file name as the file system can hold it and the model covers it: not
+   empty, not "." or "..", no '/', no control characters.  Names that merely START with
+   a period (".orig", "..x", ".a.b"), contain blanks or are long are ordinary names. *)
 Definition valid_comp (c : str) : Prop :=
-  c <> [] /\ c <> [ch_dot] /\ ~ In ch_slash c /\ json_ok c.
+  c <> [] /\ c <> [ch_dot] /\ ~ In ch_slash c /\ json_ok c /\ c <> [ch_dot; ch_dot].
 Definition valid_file (f : path) : Prop := f <> [] /\ Forall valid_comp f.
 
 Lemma split_nosep c s : ~ In c s -> split_on c s = [s].
@@ -411,7 +414,7 @@ Proof. intros. apply Forall_app. split; assumption. Qed.
 Lemma json_ok_file_key f : Forall valid_comp f -> json_ok (get_file_key f).
 Proof.
   unfold get_file_key. induction f as [|x f IH]; intro H; [constructor|].
-  inversion H as [|? ? Hx Hf]; subst. destruct Hx as (_ & _ & _ & Hx).
+  inversion H as [|? ? Hx Hf]; subst. destruct Hx as (_ & _ & _ & Hx & _).
   destruct f as [|y f]; [exact Hx|].
   change (join slash (x :: y :: f)) with (x ++ slash ++ join slash (y :: f)).
   apply json_ok_app; [exact Hx|]. apply json_ok_app; [|apply IH; exact Hf].
@@ -1482,4 +1485,70 @@ Proof.
   destruct (restore_selected_lemma m g b tasks keys g' Hm Hk Hg k Hkin Hsel) as (c' & H3 & H4).
   rewrite H2, H4. unfold read in H1, H3. rewrite (Hfg _ (under_dir_root b (key_path k))) in H1.
   congruence.
+Qed.
+
+(* ------------------------------------------------------------------ *)
+(* Keys: one key per file, every directory component kept              *)
+(* ------------------------------------------------------------------ *)
+Lemma file_key_injective f g :
+  valid_file f -> valid_file g -> get_file_key f = get_file_key g -> f = g.
+Proof.
+  intros Hf Hg E. rewrite <- (key_path_file_key f Hf), <- (key_path_file_key g Hg), E. reflexivity.
+Qed.
+
+Lemma backup_path_injective b f g :
+  valid_file f -> valid_file g -> get_backup_path b f = get_backup_path b g -> f = g.
+Proof.
+  intros Hf Hg E. unfold get_backup_path in E.
+  rewrite (key_path_file_key f Hf), (key_path_file_key g Hg) in E.
+  apply app_inv_head in E. exact E.
+Qed.
+
+Lemma keys_of_length files : forall acc,
+  NoDup files -> Forall valid_file files ->
+  (forall f, In f files -> ~ In (get_file_key f) acc) ->
+  length (keys_of files acc) = length acc + length files.
+Proof.
+  induction files as [|f r IH]; intros acc Hnd Hv Hacc; simpl; [lia|].
+  inversion Hnd as [|? ? Hnin Hnd']; subst. inversion Hv as [|? ? Hvf Hvr]; subst.
+  assert (Hm : mem_str (get_file_key f) acc = false).
+  { destruct (mem_str (get_file_key f) acc) eqn:E; [|reflexivity].
+    apply mem_str_spec in E. exfalso. apply (Hacc f); [left; reflexivity | exact E]. }
+  rewrite Hm. rewrite IH; [rewrite app_length; simpl; lia | exact Hnd' | exact Hvr |].
+  intros g Hg Hin. apply in_app_or in Hin as [Hin | [E | []]].
+  - apply (Hacc g); [right; exact Hg | exact Hin].
+  - apply file_key_injective in E; [| exact Hvf | apply (proj1 (Forall_forall _ _) Hvr g Hg)].
+    subst g. contradiction.
+Qed.
+
+Lemma record_one_entry_per_file files :
+  NoDup files -> Forall valid_file files ->
+  length (keys_of files []) = length files /\
+  (forall f g, In f files -> In g files ->
+     get_file_key f = get_file_key g -> f = g) /\
+  (forall f, In f files -> key_path (get_file_key f) = f).
+Proof.
+  intros Hnd Hv. split; [|split].
+  - rewrite keys_of_length; [reflexivity | exact Hnd | exact Hv | intros f _ []].
+  - intros f g Hf Hg. apply file_key_injective; apply (proj1 (Forall_forall _ _) Hv); assumption.
+  - intros f Hf. apply key_path_file_key. apply (proj1 (Forall_forall _ _) Hv f Hf).
+Qed.
+
+(* dot-prefixed directory, blank, and a same-named twin beside the dot directory *)
+Definition ex_dotdir : str := [46;111;114;105;103]%N.             (* ".orig" *)
+Definition ex_dd : str := [46;46;120;32;121]%N.                   (* "..x y" *)
+Definition ex_twins : list path := [[ex_sub; ex_dotdir; ex_a]; [ex_sub; ex_a]; [ex_dd; ex_a]].
+Lemma ex_dot_keys :
+  Forall valid_file ex_twins /\ NoDup ex_twins /\
+  map (fun f => key_path (get_file_key f)) ex_twins = ex_twins /\
+  length (keys_of ex_twins []) = 3.
+Proof.
+  split; [|split; [|split]].
+  - unfold ex_twins, valid_file, valid_comp, json_ok.
+    repeat (constructor || split); try discriminate;
+      try (intro H; vm_compute in H; intuition discriminate);
+      try (vm_compute; discriminate).
+  - repeat constructor; simpl; intuition discriminate.
+  - vm_compute. reflexivity.
+  - vm_compute. reflexivity.
 Qed.
